@@ -397,3 +397,84 @@ Example wrap_schedule_run :
   rets_of s 0 = [4294967294; 4294967294] /\ rets_of s 1 = [2; 2] /\ rets_of s 2 = [3] /\
   s_ctr s = M32 + 4 /\ s_adv s = 6 /\ Forall (fun i => (i < 3)%nat) wrap_schedule.
 Proof. vm_compute. repeat split; auto; repeat constructor. Qed.
+
+(* ---------- a call that is not interleaved with anything is Ident.qthread_id (the op-atomic model, itself tied to the source by
+   the regeneration tie Gen/Ident.v) ---------- *)
+Definition local_step (c a : N) (t : task) : N * N * task :=
+  match t_pc t with
+  | PIdle => (c, a, with_pc t (PTest (t_fld t)))
+  | PTest r => (c, a, with_pc t (if r =? NON_TASK_ID then PDraw1 else PLoadRet))
+  | PDraw1 => (wrap64 (c + 1), a + 1, with_draw t (PStore1 c) a)
+  | PDraw1b v => (wrap64 (v + 1), a + 1, with_draw t (PStore1 v) a)
+  | PStore1 v => (c, a, with_fld t (wrap32 v) PChk)
+  | PChk => (c, a, with_pc t (if t_fld t =? NULL_TASK_ID then PDrawNull
+                              else if t_fld t =? NON_TASK_ID then PDrawNon else PLoadRet))
+  | PDrawNull => (wrap64 (c + 2), a + 2, with_draw t (PStoreNull c) (a + 1))
+  | PStoreNull v => (c, a, with_fld t (wrap32 (v + 1)) PLoadRet)
+  | PDrawNon => (wrap64 (c + 1), a + 1, with_draw t (PStoreNon c) a)
+  | PStoreNon v => (c, a, with_fld t (wrap32 v) PLoadRet)
+  | PLoadRet => (c, a, with_pc t (PRet (t_fld t)))
+  | PRet r => (c, a, mkT (t_fld t) PIdle (r :: t_rets t) (t_g t) (t_draws t))
+  end.
+
+Fixpoint iter_local (k : nat) (x : N * N * task) : N * N * task :=
+  match k with O => x | S k' => let '(c, a, t) := x in iter_local k' (local_step c a t) end.
+
+Lemma step_local : forall s i,
+  let '(c, a, t') := local_step (s_ctr s) (s_adv s) (s_tasks s i) in
+  s_ctr (step true s i) = c /\ s_adv (step true s i) = a /\ s_tasks (step true s i) i = t' /\
+  forall j, j <> i -> s_tasks (step true s i) j = s_tasks s j.
+Proof.
+  intros s i. unfold local_step, step.
+  destruct (t_pc (s_tasks s i)); cbn [s_ctr s_adv s_tasks]; rewrite upd_same;
+    (repeat split; try reflexivity; intros j Nj; apply upd_other; exact Nj).
+Qed.
+
+Lemma run_repeat_local : forall k s i,
+  let '(c, a, t) := iter_local k (s_ctr s, s_adv s, s_tasks s i) in
+  s_ctr (run true s (repeat i k)) = c /\ s_adv (run true s (repeat i k)) = a /\
+  s_tasks (run true s (repeat i k)) i = t /\ forall j, j <> i -> s_tasks (run true s (repeat i k)) j = s_tasks s j.
+Proof.
+  induction k as [|k IH]; intros s i; cbn [iter_local repeat run fold_left].
+  - repeat split; reflexivity.
+  - pose proof (step_local s i) as L. destruct (local_step (s_ctr s) (s_adv s) (s_tasks s i)) as [[c a] t'].
+    destruct L as (L1 & L2 & L3 & L4). specialize (IH (step true s i) i). rewrite L1, L2, L3 in IH.
+    destruct (iter_local k (c, a, t')) as [[c2 a2] t2]. destruct IH as (I1 & I2 & I3 & I4).
+    unfold run in *. repeat split; try assumption. intros j Nj. rewrite I4 by exact Nj. apply L4. exact Nj.
+Qed.
+
+Theorem idm_solo_call_thm : forall s i, t_pc (s_tasks s i) = PIdle ->
+  exists k, (k <= CALL_STEPS)%nat /\
+    let s' := run true s (repeat i k) in
+    let '(r, f', c') := qthread_id (t_fld (s_tasks s i)) (s_ctr s) in
+    t_pc (s_tasks s' i) = PIdle /\ t_rets (s_tasks s' i) = r :: t_rets (s_tasks s i) /\
+    t_fld (s_tasks s' i) = f' /\ s_ctr s' = c' /\ forall j, j <> i -> s_tasks s' j = s_tasks s j.
+Proof.
+  intros s i H. destruct (s_tasks s i) as [fld p rets g dr] eqn:T. cbn [t_pc t_fld t_rets] in *. subst p.
+  unfold qthread_id, id_alloc, fetch_add.
+  destruct (fld =? NON_TASK_ID) eqn:E0.
+  - destruct (wrap32 (s_ctr s) =? NULL_TASK_ID) eqn:E1; [|destruct (wrap32 (s_ctr s) =? NON_TASK_ID) eqn:E2].
+    + exists 9%nat. split; [unfold CALL_STEPS; lia|]. cbn zeta.
+      pose proof (run_repeat_local 9 s i) as R. rewrite T in R.
+      cbn [iter_local local_step t_pc t_fld t_rets t_g t_draws with_pc with_fld with_draw] in R.
+      rewrite ?E0 in R. cbn [iter_local local_step t_pc t_fld t_rets t_g t_draws with_pc with_fld with_draw] in R.
+      rewrite ?E1 in R. cbn [iter_local local_step t_pc t_fld t_rets t_g t_draws with_pc with_fld with_draw] in R.
+      destruct R as (R1 & R2 & R3 & R4). rewrite R3, R1. cbn [t_pc t_rets t_fld]. repeat split; try reflexivity. exact R4.
+    + exists 9%nat. split; [unfold CALL_STEPS; lia|]. cbn zeta.
+      pose proof (run_repeat_local 9 s i) as R. rewrite T in R.
+      cbn [iter_local local_step t_pc t_fld t_rets t_g t_draws with_pc with_fld with_draw] in R.
+      rewrite ?E0 in R. cbn [iter_local local_step t_pc t_fld t_rets t_g t_draws with_pc with_fld with_draw] in R.
+      rewrite ?E1, ?E2 in R. cbn [iter_local local_step t_pc t_fld t_rets t_g t_draws with_pc with_fld with_draw] in R.
+      destruct R as (R1 & R2 & R3 & R4). rewrite R3, R1. cbn [t_pc t_rets t_fld]. repeat split; try reflexivity. exact R4.
+    + exists 7%nat. split; [unfold CALL_STEPS; lia|]. cbn zeta.
+      pose proof (run_repeat_local 7 s i) as R. rewrite T in R.
+      cbn [iter_local local_step t_pc t_fld t_rets t_g t_draws with_pc with_fld with_draw] in R.
+      rewrite ?E0 in R. cbn [iter_local local_step t_pc t_fld t_rets t_g t_draws with_pc with_fld with_draw] in R.
+      rewrite ?E1, ?E2 in R. cbn [iter_local local_step t_pc t_fld t_rets t_g t_draws with_pc with_fld with_draw] in R.
+      destruct R as (R1 & R2 & R3 & R4). rewrite R3, R1. cbn [t_pc t_rets t_fld]. repeat split; try reflexivity. exact R4.
+  - exists 4%nat. split; [unfold CALL_STEPS; lia|]. cbn zeta.
+    pose proof (run_repeat_local 4 s i) as R. rewrite T in R.
+    cbn [iter_local local_step t_pc t_fld t_rets t_g t_draws with_pc with_fld with_draw] in R.
+    rewrite ?E0 in R. cbn [iter_local local_step t_pc t_fld t_rets t_g t_draws with_pc with_fld with_draw] in R.
+    destruct R as (R1 & R2 & R3 & R4). rewrite R3, R1. cbn [t_pc t_rets t_fld]. repeat split; try reflexivity. exact R4.
+Qed.
